@@ -272,7 +272,7 @@ def build_mixed(ch, acc, with_ack_groups=True, **kw):
 
 
 ENVELOPE_FAULTS = ['se-count', 'se-id', 'ge-count', 'ge-id', 'iea-count', 'iea-id', 'gs-date', 'gs-time', 'st-dup', 'gs-dup', 'gs-code',
-                   'se-count-alpha', 'st-id-long', 'se-count', 'st-dup', 'st-many-codes', 'st-many-codes', 'st-many-codes', 'drop-trailer', 'st-dup-far', 'gs-dup-far', 'trailer-and-neighbour', 'trailer-and-neighbour', 'envelope-extra-element', 'envelope-extra-element', 'stray-after-trailer', 'stray-after-trailer']
+                   'se-count-alpha', 'st-id-long', 'se-count', 'st-dup', 'st-many-codes', 'st-many-codes', 'st-many-codes', 'drop-trailer', 'st-dup-far', 'gs-dup-far', 'trailer-and-neighbour', 'trailer-and-neighbour', 'envelope-extra-element', 'envelope-extra-element', 'stray-after-trailer', 'stray-after-trailer', 'spelling', 'spelling', 'spelling']
 
 
 def envelope_fault(doc, ch):
@@ -314,6 +314,19 @@ def _envelope_fault(doc, ch):
                         break
                 return kind
         return None
+    elif kind == 'spelling':
+        # a blank in front of a segment identifier and / or separators after its last element, on any segment but the ISA
+        c = [s_ for s_ in doc.segs if s_.id != 'ISA' and getattr(s_, 'raw_pattern', None) is None]
+        if not c:
+            return None
+        env = [s_ for s_ in c if s_.id in ('GS', 'ST', 'SE', 'GE', 'IEA')]
+        pool = env if env and ch.chance(.5) else c
+        s_ = pool[ch.integer(0, len(pool) - 1)]
+        what = ch.choice(['lead-blank', 'trail-sep', 'both'])
+        if what in ('lead-blank', 'both'):
+            s_.tags.add('lead-blank')
+        if what in ('trail-sep', 'both'):
+            s_.tags.add('trail-sep')
     elif kind == 'envelope-extra-element':
         # one element more than the header / trailer defines
         s_ = pick(ch.choice(['ST', 'SE', 'ST', 'SE', 'GS', 'GE', 'IEA']))
@@ -417,13 +430,14 @@ def _envelope_fault(doc, ch):
     return kind
 
 
-def tag_structural(case, out):
+def tag_structural(case, out, untagged=('R1:reader-error-lost',)):
     """Failures on inputs whose set/group structure itself is broken are kept apart, in buckets of their own: a set or group left
     unterminated in mid-file, a body segment standing between two sets or after a group trailer."""
     fl = (case.get('meta') or {}).get('faults', [])
-    for fault, tag in (('env:drop-trailer', 'unterminated-set-or-group'), ('env:stray-after-trailer', 'segment-outside-set')):
+    for fault, tag in (('env:drop-trailer', 'unterminated-set-or-group'), ('env:stray-after-trailer', 'segment-outside-set'),
+                       ('env:spelling', 'spelling-defect')):
         if fault in fl:
-            out.failures = [(b_ + '[%s]' % tag, d_) for b_, d_ in out.failures]
+            out.failures = [(b_ if b_.startswith(untagged) else b_ + '[%s]' % tag, d_) for b_, d_ in out.failures]
             out.classes.append(tag)
             break           # one tag: the first that applies
     return out
